@@ -20,6 +20,9 @@ EXPLANATION = (
     'to the send queue exactly once; (e) a published lease is announced with its own count and its time-to-live '
     'through the millisecond conversion (shared with C16.a), and (shared with C08.g) a request and its own control '
     'frames pass the same FIFO. Not decided: expiry at a given instant, FIFO as observed on the wire.')
+EXPLANATION_ADDED = ("(f) only new requests are held or consume an allowance, and only behind a true honor_lease test; (g) the attributes the gate reads are the constructor's arguments, replaced by a default only when None; the release loop dequeues only after non-empty and a granted allowance and ends only on empty or refusal; the lease publisher is subscribed exactly when leases are in use and every published value is installed for the responder gate and announced; LEASE frames reach handle_lease (dispatch row).")
+EXPLANATION = EXPLANATION.replace(' Not decided', ' ' + EXPLANATION_ADDED + ' Not decided', 1) \
+    if ' Not decided' in EXPLANATION else EXPLANATION + ' ' + EXPLANATION_ADDED
 ASSUMPTIONS = COMMON_ASSUMPTIONS
 
 
